@@ -1274,18 +1274,53 @@ func runStartOnce(c StartCase) (info vkit.Info, err error) {
 		if d := diffSnap(last, served(fx)); d != "" {
 			return info, vkit.Errf("the coordinator, about to persist the schedule configuration, changed what is served: %s", d)
 		}
-		for i, op := range c.Parked {
-			ok, e := applyChecked(fx, op, fmt.Sprintf("while coordinator.run is parked at its write-back, update %d", i))
-			if e != nil {
-				return info, e
+		// The meanwhile-updates run on their own goroutine, one after the other: if Persist is serialised they
+		// block behind the coordinator's parked save until it is released (both outcomes are fine). Give them a
+		// short head start, release the coordinator, join them, then judge.
+		type res struct {
+			accepted int
+			err      error
+			last     snap
+		}
+		done := make(chan res, 1)
+		go func() {
+			var r res
+			for i, op := range c.Parked {
+				ok, e := applyChecked(fx, op, fmt.Sprintf("while coordinator.run is parked at its write-back, update %d", i))
+				if e != nil {
+					r.err = e
+					break
+				}
+				if ok {
+					r.accepted++
+				}
 			}
-			if ok {
-				accepted++
-				info.Class("update-during-write-back")
+			r.last = served(fx)
+			done <- r
+		}()
+		var r res
+		joined := false
+		select {
+		case r = <-done:
+			joined = true
+			info.Class("updates-finished-while-parked")
+		case <-time.After(50 * time.Millisecond):
+			info.Class("updates-still-running-at-release")
+		}
+		doRelease()
+		if !joined {
+			select {
+			case r = <-done:
+			case <-time.After(40 * time.Second):
+				livesrv.Fatal("C18: an update started while coordinator.run was parked did not return after the release")
 			}
 		}
-		last = served(fx)
-		doRelease()
+		if r.err != nil {
+			return info, r.err
+		}
+		accepted += r.accepted
+		info.ClassIf(r.accepted > 0, "update-during-write-back")
+		last = r.last
 	}
 	if e := fx.WaitCoordinator(20 * time.Second); e != nil {
 		info.Inconclusive = true
